@@ -5,7 +5,7 @@ CONSTANTS
   DetailNames <- NamesMid
   Mismatches = {"m1", "m2"}
   Attrs = {"a_missing", "a_none"}
-  Fixtures = {"f_tb", "f_two", "f_bad", "f_cr", "f_gr", "f_nestbad", "f_nestcr"}
+  Fixtures = {"f_tb", "f_two", "f_bad", "f_cr", "f_gr", "f_nestbad", "f_nestcr", "f_classic"}
   MaxFaults = 1
   MaxSteps = 2
   MaxTotalSteps = 2
@@ -13,6 +13,7 @@ CONSTANTS
   AllowDecor = FALSE
   OnExcChoices = {FALSE}
   PreForceChoices = {FALSE}
+  XfDecChoices = {FALSE}
   StepOps = {"addCleanup", "addDetail", "expect", "patch", "useFixture"}
   AllowMulti = FALSE
   Variant = "asRequired"
@@ -20,7 +21,7 @@ CONSTANTS
   GatherOf <- MCGatherOf
   CleanOf <- MCCleanOf
   FixtureSetUpFails <- MCFixtureSetUpFails
-  FixtureFailCount <- MCFixtureFailCount
+  FixtureFailKinds <- MCFixtureFailKinds
   FixtureCleanKind <- MCFixtureCleanKind
   FixtureGatherRaises <- MCFixtureGatherRaises
   FixtureDetails <- MCFixtureDetails
